@@ -186,7 +186,7 @@ def fix_fractions(x):
 
 
 def standard_run(pid, judge, tags, tier, seed, drv, sources, nontrivial=None, rule='', n_quick=150, n_thorough=5000,
-                 kind='rat', judge_params='', judge_extra=None, probes=None, refine=None, optimized=0):
+                 kind='rat', judge_params='', judge_extra=None, probes=None, refine=None, optimized=0, judge_only=None, n_judge_only=0):
     """sources: list of functions rng -> scenario, used round-robin; probes: list of
     (finding id, scenario) replayed first (dedicated probes of known findings)"""
     from common import rng_for
@@ -206,6 +206,11 @@ def standard_run(pid, judge, tags, tier, seed, drv, sources, nontrivial=None, ru
         impl = st.check(sc, nontrivial=nontrivial, judge_extra=judge_extra(sc) if callable(judge_extra) else judge_extra, refine=rf(sc))
         if len(made) < optimized and not USAGE_ASSERTION.search(obs_line(impl)):
             made.append(sc)
+    for i in range(n_judge_only if judge_only else 0):
+        # programs the machine cannot express (e.g. tasks whose payload is a plain awaitable): the implementation's trace before the judge
+        sc = judge_only[i % len(judge_only)](rng_for(seed, pid + ':judge-only', i))
+        st.check(sc, nontrivial=nontrivial, judge_extra=judge_extra(sc) if callable(judge_extra) else judge_extra, compare=False)
+        st.res.count('judge-only')
     if optimized:
         # generated scenarios once more under `python -O`, judged only (programs that trip one of usim's usage assertions in
         # default mode are left out: without the assertion they go on into territory the statements do not describe)
